@@ -1059,3 +1059,53 @@ def main(ctx):
 
     ctx.lattice("boxcar", unitsb, one_box, expand=expandb,
                 bounds=dict(max_len=LB, alphabet=list(BX), window="1..len+2"))
+
+    # ------------------------------------------------------------ call sequences
+    # sequences of calls of the statistics functions in one process, the same arrays passed repeatedly
+    # (mc/worlds.py call_sequences): memoised weights/means, results that are views of a shared scratch array,
+    # option values remembered from an earlier call
+    from mc.worlds import call_sequences
+    import esutil.stat.util as _su
+
+    def seq_pool():
+        return dict(x=np.array([0.0, 1.0, 2.5, -1.0, 10.0, 2.5]), w=np.array([1.0, 2.0, 0.5, 1.0, 0.25, 2.0]),
+                    x2=np.array([[0.0, 1.0], [2.5, -1.0], [10.0, 2.5]]), w3=np.array([1.0, 2.0, 0.5]),
+                    tx=np.array([1.0, 2.0, 2.5, 3.0, 7.0]), tv=np.array([2.0, 4.0, 5.0, 6.0, 14.5]),
+                    cov=np.array([[4.0, 1.0], [1.0, 9.0]]))
+
+    SEQ_CALLS = [("wmom", "x", "w", None, False), ("wmom", "x", "w", 0.0, True), ("wmom", "x", "w", 1.5, True),
+                 ("wmom", "x2", "w3", None, True), ("wmedian", "x", "w"), ("sigma_clip", "x", None, 1.5),
+                 ("sigma_clip", "x", "w", 1.0), ("interplin", 2.2), ("interplin", 9.0), ("get_stats", "x", None),
+                 ("get_stats", "x", "w"), ("cov2cor",), ("boxcar", 2)]
+
+    def _vals(r):
+        if isinstance(r, dict):
+            return [np.asarray(r[k]) for k in sorted(r)]
+        if isinstance(r, (tuple, list)):
+            out = []
+            for v in r:
+                out += _vals(v) if isinstance(v, (dict, tuple, list)) else [np.asarray(v)]
+            return out
+        return [np.asarray(r)]
+
+    def seq_run(c, pool):
+        if c[0] == "wmom":
+            return _vals(stat.wmom(pool[c[1]], pool[c[2]], inputmean=c[3], calcerr=c[4], sdev=True))
+        if c[0] == "wmedian":
+            return _vals(stat.wmedian(pool[c[1]], pool[c[2]]))
+        if c[0] == "sigma_clip":
+            return _vals(stat.sigma_clip(pool[c[1]], weights=None if c[2] is None else pool[c[2]], nsig=c[3], silent=True,
+                                         get_err=True, get_indices=True))
+        if c[0] == "interplin":
+            return _vals(stat.interplin(pool["tv"], pool["tx"], np.array([c[1], 1.5])))
+        if c[0] == "get_stats":
+            return _vals(stat.get_stats(pool[c[1]], weights=None if c[2] is None else pool[c[2]]))
+        if c[0] == "cov2cor":
+            return _vals(stat.cov2cor(pool["cov"]))
+        return _vals(stat.boxcar_average(pool["x"], c[1]))
+
+    def seq_mut(m, pool):
+        pool[m[0]][:] = pool[m[0]][::-1].copy()
+
+    call_sequences(ctx, "call-sequences", seq_pool, SEQ_CALLS, seq_run, lambda: [_su], depth=ctx.pick(3, 3),
+                   mutations=[("x",), ("w",)], mutate=seq_mut, nodedup_depth=3)
